@@ -1,6 +1,7 @@
 package an
 
 import (
+	"fmt"
 	"go/ast"
 	"go/token"
 	"go/types"
@@ -20,6 +21,10 @@ type Sites struct {
 	F    *Fn
 	Desc string
 	List []Site
+	// Objs are the call targets the sites were matched by (MCall); exact is set
+	// when the list was narrowed by a predicate, so wrappers cannot be added.
+	Objs  []types.Object
+	exact bool
 }
 
 // Matcher decides whether a node is a site of interest.
@@ -27,12 +32,13 @@ type Matcher struct {
 	Desc string
 	Ok   bool // anchors resolved
 	M    func(f *Fn, n ast.Node) bool
+	Objs []types.Object // call targets (MCall), for wrapper extension
 }
 
 // Find collects the sites of m in f.  Function literals that are not invoked
 // in place are not entered.
 func (f *Fn) Find(m Matcher) *Sites {
-	out := &Sites{F: f, Desc: m.Desc}
+	out := &Sites{F: f, Desc: m.Desc, Objs: m.Objs}
 	if m.M == nil {
 		return out
 	}
@@ -115,7 +121,7 @@ func (s *Sites) OnlyDeferred() *Sites {
 
 // Filter keeps the sites satisfying pred.
 func (s *Sites) Filter(desc string, pred func(Site) bool) *Sites {
-	out := &Sites{F: s.F, Desc: s.Desc + " " + desc}
+	out := &Sites{F: s.F, Desc: s.Desc + " " + desc, exact: true}
 	for _, x := range s.List {
 		if pred(x) {
 			out.List = append(out.List, x)
@@ -126,11 +132,51 @@ func (s *Sites) Filter(desc string, pred func(Site) bool) *Sites {
 
 // Union merges site sets.
 func Union(a *Sites, bs ...*Sites) *Sites {
-	out := &Sites{F: a.F, Desc: a.Desc, List: append([]Site(nil), a.List...)}
+	out := &Sites{F: a.F, Desc: a.Desc, List: append([]Site(nil), a.List...), Objs: append([]types.Object(nil), a.Objs...), exact: a.exact}
 	for _, b := range bs {
 		out.Desc += " | " + b.Desc
 		out.List = append(out.List, b.List...)
+		out.Objs = append(out.Objs, b.Objs...)
+		out.exact = out.exact || b.exact
 	}
+	return out
+}
+
+// WithWrappers adds to a set of call sites the synchronous calls, in the same
+// function, of faithful wrappers of the same targets (see Program.wraps).  Used
+// for the side of a rule that must be passed (the A of "A precedes B", the Y of
+// "X is followed by Y"): extracting that call into a helper keeps the rule
+// satisfied.  Sets narrowed by a predicate, and non-call sites, stay as they are.
+func (s *Sites) WithWrappers() *Sites {
+	if s == nil || s.exact || len(s.Objs) == 0 || s.F == nil {
+		return s
+	}
+	for _, o := range s.Objs {
+		if o == nil {
+			return s
+		}
+	}
+	objs := s.Objs
+	extra := s.F.Find(Matcher{Desc: "wrapper of " + s.Desc, Ok: true, M: func(f *Fn, n ast.Node) bool {
+		call, ok := n.(*ast.CallExpr)
+		if !ok {
+			return false
+		}
+		callee := Callee(f.Info, call)
+		if callee == nil {
+			return false
+		}
+		for _, o := range objs {
+			if fo, ok := o.(*types.Func); ok && sameFunc(fo, callee) {
+				return false // direct site, already in s
+			}
+		}
+		return f.P.wraps(callee, objs, 2)
+	}}).Sync()
+	if extra.Len() == 0 {
+		return s
+	}
+	out := &Sites{F: s.F, Desc: s.Desc + " (or a faithful wrapper)", List: append(append([]Site(nil), s.List...), extra.List...), Objs: s.Objs, exact: true}
 	return out
 }
 
@@ -164,7 +210,7 @@ func MCall(desc string, objs ...types.Object) Matcher {
 			ok = false
 		}
 	}
-	return Matcher{Desc: "call " + desc, Ok: ok, M: func(f *Fn, n ast.Node) bool {
+	return Matcher{Desc: "call " + desc, Ok: ok, Objs: objs, M: func(f *Fn, n ast.Node) bool {
 		call, isCall := n.(*ast.CallExpr)
 		if !isCall {
 			return false
@@ -180,6 +226,111 @@ func MCall(desc string, objs ...types.Object) Matcher {
 		}
 		return false
 	}}
+}
+
+// wraps reports whether fn, a function declared in the analysed program, is a
+// faithful wrapper of one of the targets: every path through its body passes a
+// synchronous call of a target (directly or through another faithful wrapper,
+// bounded depth), and when the target can fail, the wrapper returns an error and
+// no path after a failed target call returns nil.  Such a call site stands for
+// the target in every ordering / guard / lock rule, so extracting a helper does
+// not make a rule lose its sites.
+func (p *Program) wraps(fn *types.Func, objs []types.Object, depth int) bool {
+	if fn == nil || depth <= 0 {
+		return false
+	}
+	src := p.Src(fn)
+	if src == nil || src.Decl.Body == nil {
+		return false
+	}
+	key := wrapKey{fn, fmt.Sprint(objs), depth}
+	if v, ok := p.wrapMemo[key]; ok {
+		return v
+	}
+	if p.wrapMemo == nil {
+		p.wrapMemo = map[wrapKey]bool{}
+	}
+	p.wrapMemo[key] = false // recursion guard
+	g := p.Fn(src)
+	if g == nil {
+		return false
+	}
+	m := Matcher{Desc: "target", Ok: true, M: func(h *Fn, n ast.Node) bool {
+		call, ok := n.(*ast.CallExpr)
+		if !ok {
+			return false
+		}
+		callee := Callee(h.Info, call)
+		if callee == nil {
+			return false
+		}
+		for _, o := range objs {
+			if fo, ok := o.(*types.Func); ok && sameFunc(fo, callee) {
+				return true
+			}
+		}
+		return p.wraps(callee, objs, depth-1)
+	}}
+	sites := g.Find(m).Sync()
+	if sites.Len() == 0 {
+		return false
+	}
+	if g.FPath([]int{g.G.Entry}, g.G.Exit, sites.Vs(), nil) != nil {
+		return false // some path avoids the target
+	}
+	// error fidelity
+	targetFails := false
+	errT := types.Universe.Lookup("error").Type()
+	for _, o := range objs {
+		if fo, ok := o.(*types.Func); ok {
+			rs := fo.Type().(*types.Signature).Results()
+			if rs.Len() > 0 && types.Identical(rs.At(rs.Len()-1).Type(), errT) {
+				targetFails = true
+			}
+		}
+	}
+	if targetFails {
+		if g.errResultIndex() < 0 {
+			return false
+		}
+		nilRets := g.Find(ReturnsNilErr())
+		for _, s := range sites.List {
+			returned := false
+			for q := g.parent[s.Node]; q != nil; q = g.parent[q] {
+				if _, ok := q.(*ast.ReturnStmt); ok {
+					returned = true
+				}
+				if _, ok := q.(ast.Stmt); ok {
+					break
+				}
+			}
+			if returned {
+				continue
+			}
+			e, has := g.SuccessEdge(s)
+			if !has {
+				return false
+			}
+			cv := g.G.Vs[e[0]]
+			fail := cv.TrueSucc
+			if e[1] == cv.TrueSucc {
+				fail = cv.FalseSucc
+			}
+			for _, t := range nilRets.List {
+				if g.FPath([]int{fail}, t.V, nil, nil) != nil {
+					return false
+				}
+			}
+		}
+	}
+	p.wrapMemo[key] = true
+	return true
+}
+
+type wrapKey struct {
+	fn    *types.Func
+	objs  string
+	depth int
 }
 
 // MCallVar matches calls through a function-typed variable / parameter / field
